@@ -3,3 +3,9 @@ import BloomVerif.Bridge.Leaf
 import BloomVerif.Props.C01
 import BloomVerif.Props.C02
 import BloomVerif.Props.C04
+import BloomVerif.Props.C11
+import BloomVerif.Props.C12
+import BloomVerif.Props.C17
+import BloomVerif.Props.C18
+import BloomVerif.Props.C19
+import BloomVerif.Props.C25
